@@ -47,28 +47,35 @@ fn enc_type(t: VfsFileType) -> &'static str {
         VfsFileType::Directory => "D",
     }
 }
+/// timestamps: total NANOSECONDS relative to the unix epoch ("at<n>", n may be negative), except
+/// for values within 5 years of the wall clock, which are whatever "now" was ("now")
 fn enc_ts(t: Option<SystemTime>) -> String {
     match t {
         None => "unset".into(),
-        Some(t) => match t.duration_since(UNIX_EPOCH) {
-            Ok(d) if d.subsec_nanos() == 0 && d.as_secs() < 1_600_000_000 => format!("at{}", d.as_secs()),
-            Ok(_) => "now".into(),
-            Err(e) => {
-                let d = e.duration();
-                if d.subsec_nanos() == 0 {
-                    format!("at-{}", d.as_secs())
-                } else {
-                    "now".into()
-                }
+        Some(t) => {
+            let n = nanos_of(t);
+            let now = nanos_of(SystemTime::now());
+            if (n - now).abs() < 5 * 365 * 86_400 * 1_000_000_000i128 {
+                "now".into()
+            } else {
+                format!("at{}", n)
             }
-        },
+        }
     }
 }
-pub fn time_of(t: i64) -> SystemTime {
+pub fn nanos_of(t: SystemTime) -> i128 {
+    match t.duration_since(UNIX_EPOCH) {
+        Ok(d) => d.as_nanos() as i128,
+        Err(e) => -(e.duration().as_nanos() as i128),
+    }
+}
+/// the time value of the protocol: nanoseconds relative to the epoch
+pub fn time_of(t: i128) -> SystemTime {
+    let d = Duration::new((t.unsigned_abs() / 1_000_000_000) as u64, (t.unsigned_abs() % 1_000_000_000) as u32);
     if t >= 0 {
-        UNIX_EPOCH + Duration::from_secs(t as u64)
+        UNIX_EPOCH + d
     } else {
-        UNIX_EPOCH - Duration::from_secs((-t) as u64)
+        UNIX_EPOCH - d
     }
 }
 
